@@ -234,18 +234,28 @@ func runFree(p *freeProgram) (f *Failure, stats map[string]int) {
 		}
 	}
 	obs, problems := x.observations()
+	vis := x.visibleInvs()
 	for _, pr := range problems {
 		if pr.Oracle == "arg-present" && strings.HasSuffix(pr.Sig, "/optional") {
 			// an optional dependency whose resolution hit the disposed error while a Close was
-			// running is left zero by design of optional injection: not judged
-			stats["optional-dep-lost-to-close(not judged)"]++
-			continue
+			// running is left zero (optional injection tolerates the failure) - but an instance
+			// built that way is half-initialised and must not reach anybody
+			if pr.Inv != nil && !vis[pr.Inv] {
+				stats["optional-dep-lost-to-close(result discarded)"]++
+				continue
+			}
+			if reg := x.M.Regs[pr.Inv.Reg]; pr.Inv != nil && reg != nil && reg.Form == kit.FormVoid {
+				if rec := x.R.ScopeRecOf(pr.Inv.ScopeTag); pr.Inv.ScopeTag != 0 && (rec == nil || !rec.Created) {
+					stats["optional-dep-lost-to-close(creation failed)"]++
+					continue // an initializer of a scope whose creation reported the disposed error
+				}
+			}
+			return fail("C09", "complete-result", "half-wired", "a service constructed while its scope was being closed was handed out without a registered optional dependency: %s", pr.Msg), stats
 		}
 		return fail("C09", "lifetime-rules", pr.Oracle+"/"+pr.Sig, "%s", pr.Msg), stats
 	}
 	// transients: no instance handed out twice (the site-count half of C03 is not applicable when calls may fail half-way)
 	handed := map[*kit.Entry]string{}
-	vis := x.visibleInvs()
 	for _, sn := range obs {
 		reg := x.M.Regs[sn.Owner.Reg]
 		if reg.Life != kit.Transient || reg.Form == kit.FormInstance || sn.E == nil || (sn.ByInv != nil && !vis[sn.ByInv]) {
